@@ -25,8 +25,9 @@ PLANS = {
                   ("chain1_4", "chain1", 4, 3000, "simplify"), ("fuse1_3", "fuse1", 3, 4000, "simplify_m"),
                   ("betad3", "betad", 3, 4000, "simplify"), ("corea3", "corea", 3, 4000, "simplify_fresh"),
                   ("fused3", "fused", 3, 4000, "simplify"), ("betaw3", "betaw", 3, None, "simplify"),
-                  ("betads4", "betads", 4, None, "simplify")],
+                  ("betads4", "betads", 4, None, "simplify"), ("betav2", "betav", 2, None, "simplify")],
         "thorough": [("core3", "core", 3, None, "simplify"), ("beta3", "beta", 3, None, "simplify"),
+                     ("betav3", "betav", 3, None, "simplify"),
                      ("corea3", "corea", 3, None, "simplify_fresh"),
                      ("fuse4", "fuse", 4, 120000, "simplify"), ("expr3", "expr", 3, None, "simplify"),
                      ("chain4", "chain", 4, 60000, "simplify"), ("fuse1_4", "fuse1", 4, 80000, "simplify_m"),
@@ -38,10 +39,12 @@ PLANS = {
     "C18": {
         "quick": [("idx3", "idx", 3, 12000, "simplify"), ("core3", "core", 3, 4000, "simplify"),
                   ("beta3", "beta", 3, 3000, "simplify"), ("expr3", "expr", 3, 3000, "simplify"),
-                  ("chainx4", "chainx", 4, 8000, "simplify"), ("corea3", "corea", 3, 3000, "simplify_fresh")],
+                  ("chainx4", "chainx", 4, 8000, "simplify"), ("corea3", "corea", 3, 3000, "simplify_fresh"),
+                  ("betav2", "betav", 2, None, "simplify")],
         "thorough": [("idx3", "idx", 3, None, "simplify"), ("core3", "core", 3, None, "simplify"),
                      ("beta3", "beta", 3, None, "simplify"), ("expr3", "expr", 3, None, "simplify"),
                      ("fuse4", "fuse", 4, 60000, "simplify"), ("chainx4", "chainx", 4, None, "simplify"),
+                     ("betav3", "betav", 3, None, "simplify"),
                      ("chainx5", "chainx", 5, 80000, "simplify")],
         "random": {"quick": (400, 7), "thorough": (6000, 8)},
     },
